@@ -1,13 +1,15 @@
 (** C12 — results depend only on explicit inputs (no hidden state between calls).  Property theorems only.
     The models of expr_simp, eval_expr and eval_instr are Gallina functions of their explicit arguments; the one extra parameter
     they carry, the fuel that stands for Python's recursion depth and loop count, is shown NOT to be a hidden input: once a
-    result is returned, any larger fuel returns the same result, so two successful runs agree whatever their fuel.
+    result is returned, any larger fuel returns the same result, so two successful runs agree whatever their fuel — for the
+    simplifier, for the whole of eval_expr (FuelProofs.v: its body is monotone in the recursive call, every memory read path included)
+    and for the whole instruction step eval_instr (sources, destination addresses, overlapping-cell bookkeeping).
     The property itself is about the implementation's hidden state (per-object memo flags, module-level caches, on-disk parser
     tables), which a pure model does not have: it is decided by the call-history differential of harness/p_c12.py, in which the
     implementation must agree with these functions inside arbitrary call histories.  The recorded defect (is_eval flag set on
     shared register objects) is exhibited below as a value the pure model computes and the flagged implementation does not. *)
 From Coq Require Import ZArith List Bool String.
-From Mx Require Import Expr Simp EvalAbs MachineProofs.
+From Mx Require Import Expr Simp EvalAbs MachineProofs FuelProofs.
 Import ListNotations.
 
 Theorem C12_more_fuel_same_result : forall f f' e r, (f <= f')%nat -> simp f e = Ok r -> simp f' e = Ok r.
@@ -16,6 +18,22 @@ Print Assumptions C12_more_fuel_same_result.
 Theorem C12_successful_runs_agree : forall f f' e r r', simp f e = Ok r -> simp f' e = Ok r' -> r = r'.
 Proof. exact simp_deterministic_in_fuel. Qed.
 Print Assumptions C12_successful_runs_agree.
+
+(** the same for the symbolic evaluator (all of eval_expr: operators, conditions, slices, concatenations and every memory read path)
+    and for the evaluation of an instruction's sources and destination addresses *)
+Theorem C12_eval_more_fuel_same_result : forall f f' s e r, (f <= f')%nat -> eval_expr f s e = okx r -> eval_expr f' s e = okx r.
+Proof. exact eval_expr_fuel_irrelevant. Qed.
+Print Assumptions C12_eval_more_fuel_same_result.
+Theorem C12_eval_successful_runs_agree : forall f f' s e r r', eval_expr f s e = okx r -> eval_expr f' s e = okx r' -> r = r'.
+Proof. exact eval_expr_runs_agree. Qed.
+Print Assumptions C12_eval_successful_runs_agree.
+Theorem C12_instr_sources_more_fuel_same_result : forall f s affs r, get_instr_mod f s affs = okx r -> get_instr_mod (S f) s affs = okx r.
+Proof. exact get_instr_mod_fuel_mono. Qed.
+Print Assumptions C12_instr_sources_more_fuel_same_result.
+
+Theorem C12_instruction_step_more_fuel_same_result : forall f s affs r, eval_instr f s affs = okx r -> eval_instr (S f) s affs = okx r.
+Proof. exact eval_instr_fuel_mono. Qed.
+Print Assumptions C12_instruction_step_more_fuel_same_result.
 
 Example C12_pure_eval_of_bound_register :
   eval_expr 10 (Pool [(EId "eax" 32 true false, EInt false 32 5)] []) (EId "eax" 32 true false) = inl (Ok (EInt false 32 5)).
